@@ -65,15 +65,25 @@ func FromAttestation(at *spb.Attestation) ([]byte, error) {
 // not lie within the table. abi.CertTable.Unmarshal adds an entry's offset and length in 32 bits, so
 // a range that wraps around 2^32 passes its bounds check and then makes it allocate up to 4 GiB and
 // slice out of range. Tables from untrusted sources must pass this check before they are unmarshaled.
+//
+// Unmarshal copies every entry's range, so the ranges together must also not be longer than the
+// table: entries that all name the same bytes would otherwise make a table of n bytes cost n*n/96
+// bytes of copies. The entries of a table laid out by a producer do not overlap.
 func CheckCertTable(table []byte) error {
 	entries, err := abi.ParseSnpCertTableHeader(table)
 	if err != nil {
 		return err
 	}
+	var total uint64
 	for i, entry := range entries {
 		if uint64(entry.Offset)+uint64(entry.Length) > uint64(len(table)) {
 			return fmt.Errorf("cert table entry %d specifies a byte range outside the certificate data block (size %d): offset=%d, length=%d",
 				i, len(table), entry.Offset, entry.Length)
+		}
+		total += uint64(entry.Length)
+		if total > uint64(len(table)) {
+			return fmt.Errorf("cert table entries up to %d overlap: their ranges cover %d bytes of a %d byte table",
+				i, total, len(table))
 		}
 	}
 	return nil
